@@ -200,8 +200,8 @@ pub fn run(args: &Args) -> i32 {
     };
     let deep_depth = env_usize("C18_DEEP").unwrap_or(args.tier.pick(8, 12));
     let broad_depth = env_usize("C18_BROAD").unwrap_or(args.tier.pick(3, 5));
-    let budget = env_usize("C18_BUDGET").map(|x| x as u64).unwrap_or(args.tier.pick(50_000, 800_000));
-    let max_wall = env_usize("C18_MAX_WALL").map(|x| x as f64).unwrap_or(args.tier.pick(45.0, 480.0));
+    let budget = env_usize("C18_BUDGET").map(|x| x as u64).unwrap_or(args.tier.pick(60_000, 500_000));
+    let max_wall = env_usize("C18_MAX_WALL").map(|x| x as f64).unwrap_or(args.tier.pick(45.0, 540.0));
     // Explored-state persistence: quick saves one representative per shape class; thorough saves
     // every distinct MigrationState reached within the stated number of events (the size of the
     // quick-tier space) and one representative per shape class beyond.
